@@ -1,5 +1,13 @@
 (* C06 — restarts and failed status writes.  Statements only; proofs in
-   Proofs/CtrlWorldP.v, Proofs/CtrlThmP.v.  [wrun rank evs world0] is the world
+   Proofs/CtrlWorldP.v, CtrlThmP.v, CtrlRestartP.v.
+   SCOPE.  Safety at quiescence + the restart theorem.  NOT proved: that quiescence is
+   reached once writes succeed (no progress theorem for the retry loop of a full pass;
+   C01_oracle_exists_for_wellformed_pools only shows every enabled step can be taken).
+   The model handles a full pass atomically; in the Go code a configuration change (a
+   separate reconciler) can be handled between two Services of a pass, a pass can be
+   aborted by a List error, and a handler can see a stale copy of a Service: these are
+   outside the events of the model (each single handler call preserves the invariants,
+   which is what the proofs use).  [wrun rank evs world0] is the world
    (API objects, controller memory, initial-load gate, pending work) after any
    finite history of: user create/update/delete, configuration delivery, one
    pending Service request reconciled (its status write may fail), a full pass
@@ -51,8 +59,9 @@ Theorem C06_first_pass_assigned_first : forall w order l1 s l2,
 Proof. exact first_pass_assigned_first. Qed.
 
 (* ... and handling a later Service never touches what was re-assigned to an
-   earlier one (so a Service without recorded address cannot take an address a
-   recorded Service has re-assigned: the allocator refuses it, C01) *)
+   earlier one (this is C03_handler_frame again; the statement that a Service
+   without recorded address cannot TAKE a recorded one is
+   C06_restart_unrecorded_cannot_take below) *)
 Theorem C06_later_handler_keeps_earlier : forall rank w s k w' r t,
   apply_handler rank w s k = Some (w', r) -> t <> s ->
   aget (w_api w') t = aget (w_api w) t /\
@@ -60,11 +69,11 @@ Theorem C06_later_handler_keeps_earlier : forall rank w s k w' r t,
 Proof. exact handler_frame. Qed.
 
 (* The clause "every Service whose recorded addresses are still admissible keeps
-   them across a restart, whatever the delivery order" is FALSE for the code
-   (findings F14, F21: a Service that itself has a recorded address may be
-   re-allocated before a later Service of the same pass has re-assigned its own);
-   it is reproduced on the implementation on every run and listed in
-   KNOWN_FINDINGS.txt; the ordering theorem above is the part that holds. *)
+   them across a restart, whatever the delivery order" as written (per Service) is
+   FALSE for the code (findings F14, F21, reproduced on the implementation on every
+   run).  What holds is the theorem below: ALL recorded statuses jointly admissible
+   and no PreferDualStack Service holding a single address; the two refuted
+   theorems at the end show that neither hypothesis can be dropped. *)
 
 (* ==== the restart clause ==== *)
 From Coq Require Import Bool.
@@ -92,6 +101,21 @@ Theorem C06_restart_keeps_recorded : forall rank M w ps evs order ks wc wp we w'
     (exists o', aget (w_api w') s = Some o' /\ same_ips (o_status o') (o_status o)) /\
     same_ips (ips_of (c_mem (w_ctl w')) s) (o_status o).
 Proof. exact restart_keeps_recorded. Qed.
+
+(* a Service without a recorded address cannot take an address recorded for another
+   Service: whatever it holds after the pass that a recorded Service has in its
+   status, it holds as an admitted co-tenant *)
+Theorem C06_restart_unrecorded_cannot_take : forall rank M w ps evs order ks wc wp we w',
+  Inv M -> PoolCoh M -> s_pools M = ps ->
+  NoDup (map fst (w_api w)) ->
+  (forall s o, recd (w_api w) s o -> recorded_ok rank M s o) ->
+  wstep rank w ECrash = Some wc -> wstep rank wc (EPools ps) = Some wp ->
+  (forall s k, In (s, k) evs -> aget (w_api w) s <> None) -> early rank wp evs = Some we ->
+  wstep rank we (EReload order ks) = Some w' ->
+  forall s o x t alt, aget (w_api w) s = Some o -> In x (o_status o) -> t <> s ->
+    get_alloc (c_mem (w_ctl w')) t = Some alt -> In x (a_ips alt) ->
+    exists al, get_alloc (c_mem (w_ctl w')) s = Some al /\ same_ips (a_ips al) (o_status o) /\ shareable alt al.
+Proof. exact restart_unrecorded_cannot_take. Qed.
 
 (* the per-Service step it rests on *)
 Theorem C06_recorded_service_reassigned_exactly : forall rank a s o k v ok,
@@ -147,6 +171,20 @@ Proof.
     repeat split; try reflexivity; try discriminate. eexists. split; [vm_compute; reflexivity|]. split; [intros p Hp; discriminate|left; reflexivity].
   - constructor; [|eexists; repeat split; reflexivity|reflexivity].
     repeat split; try reflexivity; try discriminate. eexists. split; [vm_compute; reflexivity|]. split; [intros p Hp; discriminate|left; reflexivity].
+Qed.
+
+(* and the four step premises of the theorem are satisfiable from that world: restart,
+   configuration, an early event of an existing Service, a full pass in the order [2; 1] *)
+Example C06_restart_premises_nonvacuous :
+  exists w wc wp we w', wrun yrank yevs_ok world0 = Some w /\
+    wstep yrank w ECrash = Some wc /\ wstep yrank wc (EPools ypools) = Some wp /\
+    early yrank wp [(1, kk None)] = Some we /\
+    wstep yrank we (EReload [2; 1] [kk None; kk None]) = Some w'.
+Proof.
+  destruct (wrun yrank yevs_ok world0) as [w|] eqn:E; [|vm_compute in E; discriminate].
+  vm_compute in E. injection E as <-.
+  eexists _, _, _, _, _. split; [reflexivity|]. split; [reflexivity|]. split; [reflexivity|].
+  split; [vm_compute; reflexivity|]. vm_compute. reflexivity.
 Qed.
 
 (* F14: with a PreferDualStack Service holding one address the clause is false of
